@@ -361,9 +361,15 @@ def justify(kind, arg, path):
                 return "cannot identify the end index of the cut (%s, %s)" % (show(v[2]), show(v[3]))
         if end is not None:
             cuts.append(end)
+        good = [x for x in cuts if boundary_fact(conds, x, BYTES, L)]
+        cs_eq = [table.norm_atom(c) for c in conds]
         for x in cuts:
-            if not boundary_fact(conds, x, BYTES, L):
-                return "index %s is cut without a dominating char-boundary test on that same index" % show(x)
+            if x in good:
+                continue
+            # an index the path shows equal to a tested one (an empty cut: start == end) is a boundary too
+            if any(table.eq(x, y) in cs_eq for y in good):
+                continue
+            return "index %s is cut without a dominating char-boundary test on that same index" % show(x)
         return None
     if kind == "pattern":
         t = arg
